@@ -47,66 +47,69 @@ theorem J.set {A0 A : Accts} (h : J A0 A) (a : Bytes) (x : Acct) (hx : x.store =
   obtain ⟨hn, hm, hb⟩ := h
   exact ⟨Accts.set_nodup A hn a x, mdpos_set_store a x hx hm, fun k hk => by rw [balAt_set_store A hn a x hx, hb k hk]⟩
 
-variable {A0 : Accts}
+/-- `I` survives every storage write under a key that is not a token key, and every change of account-level fields -/
+structure NTC (I : Accts → Prop) : Prop where
+  write : ∀ A a k v, ¬ TokKey k → I A → I (A.write a k v)
+  set : ∀ A a x, x.store = (A.get a).store → I A → I (A.set a x)
 
-theorem J.writeKey (a k v : Bytes) (hk : ¬ TokKey k) : Pres (J A0) (writeKey a k v) := by
+theorem ntc_J (A0 : Accts) : NTC (J A0) := ⟨fun _ a k v hk h => h.write a k v hk, fun _ a x hx h => h.set a x hx⟩
+
+section
+variable {I : Accts → Prop}
+
+theorem NTC.writeKey (hI : NTC I) (a k v : Bytes) (hk : ¬ TokKey k) : Pres I (writeKey a k v) := by
   unfold Esdt.writeKey
   refine Pres.bind (Pres.of_ro (RO.tick _)) (fun _ => ?_)
   intro c hs
   unfold Post; intro x' c' h
   simp only [Res.ok.injEq, Prod.mk.injEq] at h
-  rw [← h.2]; exact hs.write a k v hk
+  rw [← h.2]; exact hI.write _ a k v hk hs
 
-theorem J.setOwner (a v : Bytes) : Pres (J A0) (setOwner a v) := by
+theorem NTC.setOwner (hI : NTC I) (a v : Bytes) : Pres I (setOwner a v) := by
   intro c hs
   unfold Post; intro x' c' h
   simp only [Esdt.setOwner, Res.ok.injEq, Prod.mk.injEq] at h
-  rw [← h.2]; exact hs.set a _ rfl
-theorem J.setName (a v : Bytes) : Pres (J A0) (setName a v) := by
+  rw [← h.2]; exact hI.set _ a _ rfl hs
+theorem NTC.setName (hI : NTC I) (a v : Bytes) : Pres I (setName a v) := by
   intro c hs
   unfold Post; intro x' c' h
   simp only [Esdt.setName, Res.ok.injEq, Prod.mk.injEq] at h
-  rw [← h.2]; exact hs.set a _ rfl
-theorem J.setReward (a : Bytes) (v : Int) : Pres (J A0) (setReward a v) := by
+  rw [← h.2]; exact hI.set _ a _ rfl hs
+theorem NTC.setReward (hI : NTC I) (a : Bytes) (v : Int) : Pres I (setReward a v) := by
   intro c hs
   unfold Post; intro x' c' h
   simp only [Esdt.setReward, Res.ok.injEq, Prod.mk.injEq] at h
-  rw [← h.2]; exact hs.set a _ rfl
-theorem J.setBalance (a : Bytes) (v : Int) : Pres (J A0) (setBalance a v) := by
+  rw [← h.2]; exact hI.set _ a _ rfl hs
+theorem NTC.setBalance (hI : NTC I) (a : Bytes) (v : Int) : Pres I (setBalance a v) := by
   intro c hs
   unfold Post; intro x' c' h
   simp only [Esdt.setBalance, Res.ok.injEq, Prod.mk.injEq] at h
-  rw [← h.2]; exact hs.set a _ rfl
+  rw [← h.2]; exact hI.set _ a _ rfl hs
+end
 
-macro_rules | `(tactic| pz_spec) => `(tactic| exact J.setOwner _ _)
-macro_rules | `(tactic| pz_spec) => `(tactic| exact J.setName _ _)
-macro_rules | `(tactic| pz_spec) => `(tactic| exact J.setReward _ _)
-macro_rules | `(tactic| pz_spec) => `(tactic| exact J.setBalance _ _)
-macro_rules | `(tactic| pz_spec) => `(tactic| exact J.writeKey _ _ _ (not_tokKey_role _))
-macro_rules | `(tactic| pz_spec) => `(tactic| exact J.writeKey _ _ _ (not_tokKey_nonce _))
+macro_rules | `(tactic| pz_spec) => `(tactic| exact NTC.setOwner ‹NTC _› _ _)
+macro_rules | `(tactic| pz_spec) => `(tactic| exact NTC.setName ‹NTC _› _ _)
+macro_rules | `(tactic| pz_spec) => `(tactic| exact NTC.setReward ‹NTC _› _ _)
+macro_rules | `(tactic| pz_spec) => `(tactic| exact NTC.setBalance ‹NTC _› _ _)
+macro_rules | `(tactic| pz_spec) => `(tactic| exact NTC.writeKey ‹NTC _› _ _ _ (not_tokKey_role _))
+macro_rules | `(tactic| pz_spec) => `(tactic| exact NTC.writeKey ‹NTC _› _ _ _ (not_tokKey_nonce _))
 
-theorem J.saveRoles (a tok : Bytes) (r : List Bytes) : Pres (J A0) (saveRoles a (roleKeyPrefix ++ tok) r) := by
+section
+variable {I : Accts → Prop} (hI : NTC I)
+include hI
+
+theorem NTC.saveRoles (a tok : Bytes) (r : List Bytes) : Pres I (saveRoles a (roleKeyPrefix ++ tok) r) := by
   unfold Esdt.saveRoles; pz
-macro_rules | `(tactic| pz_spec) => `(tactic| exact J.saveRoles _ _ _)
-theorem J.saveLatestNonce (a tok : Bytes) (n : Nat) : Pres (J A0) (saveLatestNonce a tok n) := by
+theorem NTC.saveLatestNonce (a tok : Bytes) (n : Nat) : Pres I (saveLatestNonce a tok n) := by
   unfold Esdt.saveLatestNonce; pz
-macro_rules | `(tactic| pz_spec) => `(tactic| exact J.saveLatestNonce _ _ _)
-theorem J.addCreateRole (a tok : Bytes) : Pres (J A0) (addCreateRole a (roleKeyPrefix ++ tok)) := by
+end
+macro_rules | `(tactic| pz_spec) => `(tactic| exact NTC.saveRoles ‹NTC _› _ _ _)
+macro_rules | `(tactic| pz_spec) => `(tactic| exact NTC.saveLatestNonce ‹NTC _› _ _ _)
+
+theorem NTC.addCreateRole {I : Accts → Prop} (hI : NTC I) (a tok : Bytes) :
+    Pres I (addCreateRole a (roleKeyPrefix ++ tok)) := by
   unfold Esdt.addCreateRole; pz
-macro_rules | `(tactic| pz_spec) => `(tactic| exact J.addCreateRole _ _)
-
-theorem J.claimDeveloperRewards (env : Env) (c : Call) : Pres (J A0) (claimDeveloperRewards env c) := by
-  unfold Esdt.claimDeveloperRewards; pz
-theorem J.changeOwnerAddress (env : Env) (c : Call) : Pres (J A0) (changeOwnerAddress env c) := by
-  unfold Esdt.changeOwnerAddress; pz
-theorem J.setUserName (env : Env) (c : Call) : Pres (J A0) (setUserName env c) := by
-  unfold Esdt.setUserName; pz
-theorem J.esdtRoles (s : Bool) (env : Env) (c : Call) : Pres (J A0) (esdtRoles s env c) := by
-  unfold Esdt.esdtRoles; pz
-theorem J.esdtNFTCreateRoleTransfer (env : Env) (c : Call) : Pres (J A0) (esdtNFTCreateRoleTransfer env c) := by
-  unfold Esdt.esdtNFTCreateRoleTransfer; pz
-
-/-! ### SaveKeyValue: a key that passes the guard is not a token key -/
+macro_rules | `(tactic| pz_spec) => `(tactic| exact NTC.addCreateRole ‹NTC _› _ _)
 
 theorem Pres.guard_bind {I : Accts → Prop} {β} {b : Bool} {e : ErrKind} {f : Unit → M β}
     (hf : b = false → Pres I (f ())) : Pres I (guardE b e >>= f) := by
@@ -116,8 +119,24 @@ theorem Pres.guard_bind {I : Accts → Prop} {β} {b : Bool} {e : ErrKind} {f : 
   intro hb
   exact hf hb c hs
 
-theorem J.skvLoop (env : Env) (c : Call) : ∀ (n : Nat) (l : List Bytes) (g : Nat), l.length ≤ n →
-    Pres (J A0) (skvLoop env c l g) := by
+section
+variable {I : Accts → Prop} (hI : NTC I)
+include hI
+
+theorem NTC.claimDeveloperRewards (env : Env) (c : Call) : Pres I (claimDeveloperRewards env c) := by
+  unfold Esdt.claimDeveloperRewards; pz
+theorem NTC.changeOwnerAddress (env : Env) (c : Call) : Pres I (changeOwnerAddress env c) := by
+  unfold Esdt.changeOwnerAddress; pz
+theorem NTC.setUserName (env : Env) (c : Call) : Pres I (setUserName env c) := by
+  unfold Esdt.setUserName; pz
+theorem NTC.esdtRoles (s : Bool) (env : Env) (c : Call) : Pres I (esdtRoles s env c) := by
+  unfold Esdt.esdtRoles; pz
+theorem NTC.esdtNFTCreateRoleTransfer (env : Env) (c : Call) : Pres I (esdtNFTCreateRoleTransfer env c) := by
+  unfold Esdt.esdtNFTCreateRoleTransfer; pz
+
+/-! SaveKeyValue: a key that passes the guard is not a token key -/
+theorem NTC.skvLoop (env : Env) (c : Call) : ∀ (n : Nat) (l : List Bytes) (g : Nat), l.length ≤ n →
+    Pres I (skvLoop env c l g) := by
   intro n
   induction n with
   | zero =>
@@ -140,11 +159,12 @@ theorem J.skvLoop (env : Env) (c : Call) : ∀ (n : Nat) (l : List Bytes) (g : N
       pz
       all_goals first
         | exact ih _ _ (by simp at hl; omega)
-        | exact J.writeKey _ _ _ hk
+        | exact NTC.writeKey hI _ _ _ hk
 
-theorem J.saveKeyValue (env : Env) (c : Call) : Pres (J A0) (saveKeyValue env c) := by
+theorem NTC.saveKeyValue (env : Env) (c : Call) : Pres I (saveKeyValue env c) := by
   unfold Esdt.saveKeyValue; pz
-  exact J.skvLoop env c _ _ _ (Nat.le_refl _)
+  exact NTC.skvLoop hI env c _ _ _ (Nat.le_refl _)
+end
 
 /-- the seven functions that never write under a token key -/
 inductive PlainFn : FnId → Prop
@@ -156,21 +176,24 @@ inductive PlainFn : FnId → Prop
   | unSetRole : PlainFn .unSetRole
   | handOver : PlainFn .nftCreateRoleTransfer
 
+/-- a successful call of one of them preserves every invariant that survives non-token writes -/
+theorem plain_pres {I : Accts → Prop} (hI : NTC I) {f : FnId} (hf : PlainFn f) (env : Env) (c : Call) (ctx ctx' : Ctx)
+    (out : VMOutput) (h0 : I ctx.accts) (h : exec env f c ctx = .ok (out, ctx')) : I ctx'.accts := by
+  unfold exec at h
+  cases hf <;> simp only [runFn] at h
+  · exact (NTC.claimDeveloperRewards hI env c _ h0).elim h
+  · exact (NTC.changeOwnerAddress hI env c _ h0).elim h
+  · exact (NTC.setUserName hI env c _ h0).elim h
+  · exact (NTC.saveKeyValue hI env c _ h0).elim h
+  · exact (NTC.esdtRoles hI true env c _ h0).elim h
+  · exact (NTC.esdtRoles hI false env c _ h0).elim h
+  · exact (NTC.esdtNFTCreateRoleTransfer hI env c _ h0).elim h
+
 /-- a successful call of one of them leaves every per-key sum of balances (and the metadata-nonce invariant) alone -/
 theorem plain_step {f : FnId} (hf : PlainFn f) (env : Env) (c : Call) (A : Accts) (out : VMOutput) (ctx' : Ctx)
     (hn : A.Nodup) (hm : MdPos A) (h : exec env f c { accts := A } = .ok (out, ctx')) :
     MdPos ctx'.accts ∧ ∀ k, TokKey k → balAt ctx'.accts k = balAt A k := by
-  have hJ : J A ({ accts := A } : Ctx).accts := J.refl hn hm
-  unfold exec at h
-  have key : J A ctx'.accts := by
-    cases hf <;> simp only [runFn] at h
-    · exact (J.claimDeveloperRewards env c _ hJ).elim h
-    · exact (J.changeOwnerAddress env c _ hJ).elim h
-    · exact (J.setUserName env c _ hJ).elim h
-    · exact (J.saveKeyValue env c _ hJ).elim h
-    · exact (J.esdtRoles true env c _ hJ).elim h
-    · exact (J.esdtRoles false env c _ hJ).elim h
-    · exact (J.esdtNFTCreateRoleTransfer env c _ hJ).elim h
+  have key : J A ctx'.accts := plain_pres (ntc_J A) hf env c { accts := A } ctx' out (J.refl hn hm) h
   exact ⟨key.2.1, key.2.2⟩
 
 /-! ### ESDTNFTAddURI / ESDTNFTUpdateAttributes: the entry is rewritten with its value kept -/
